@@ -89,6 +89,7 @@ type sys struct {
 	nkeys    int
 	clockMs  uint64
 	lastReq  map[uint64]uint64 // key -> time of the last removal request (statistics only)
+	nclear   int               // clearing calls so far (they alternate between ClearContext() and SetContext(nil, false))
 	nilMode  uint64            // event 22: what the constructor returns next (0 a routine, 1 none, 2.. none for odd keys)
 	nilKeys  map[uint64]bool   // keys whose current record was constructed without a routine (generation and statistics only)
 }
@@ -426,11 +427,23 @@ func (s *sys) exec(ev []uint64) (obs []uint64, ok bool) {
 				s.w.Count("obs.setcontext_with_cancelled_root", 1)
 			}
 		}
+		// clearing calls alternate between the ClearContext() wrapper (the first, third, ... of a history) and
+		// SetContext(nil, false)
+		wrapper := false
+		if c == 0 && !restart {
+			s.nclear++
+			wrapper = s.nclear%2 == 1
+			if wrapper {
+				s.w.Count("api.clearcontext_wrapper", 1)
+			} else {
+				s.w.Count("api.setcontext_nil", 1)
+			}
+		}
 		s.api(func() {
 			switch {
-			case c == 0 && !restart && s.variant:
+			case wrapper && s.variant:
 				s.rc.ClearContext()
-			case c == 0 && !restart:
+			case wrapper:
 				s.k.ClearContext()
 			case s.variant:
 				s.rc.SetContext(ctx, restart)
